@@ -96,6 +96,9 @@ def parse_fmt(v, where):
 
 WIDTH = {'B': 1, 'H': 2, 'L': 4, 'I': 4, 'Q': 8}
 
+# opaque object kinds (Obj(kind) fields) whose class is a repository class
+OBJ_CLASSES = {'configuration': 'configuration.Configuration'}
+
 
 class Builtins:
     def __init__(self):
@@ -116,6 +119,12 @@ class Builtins:
                   'logging.CRITICAL': 50}
         if qual in consts:
             return VInt(consts[qual])
+        if qual.startswith('socket.') and qual[7:].isupper():
+            # numeric constants of the socket module, read from the interpreter the daemon runs under
+            from . import reflect
+            sv = reflect.get().get('socket', {})
+            if qual[7:] in sv:
+                return VInt(sv[qual[7:]])
         if qual == 'logging.indent':
             return VNone        # attribute pyikev2.py attaches to the logging module (json indent)
         mod = qual.split('.')[0]
@@ -323,6 +332,11 @@ class Builtins:
             return self.opaque_attr(ex, base, attr, p, node)
         if isinstance(base, VExc):
             return [Res(p, exc=VExc('AttributeError'))]
+        if isinstance(base, VObj) and base.kind in OBJ_CLASSES:
+            # opaque object of a known repository class: its methods are called through their contracts
+            fq = ex.repo.find_method(OBJ_CLASSES[base.kind], attr)
+            if fq:
+                return [Res(p, VFunc(fq, self_v=base))]
         raise Unsupported(f'attribute {attr} of {base!r} at {ex.where(node)}')
 
     def opaque_attr(self, ex, base, attr, p, node):
@@ -838,6 +852,13 @@ class Builtins:
                     elem = ty_of(v)
                     z = z3.Unit(to_z3(v, elem))
                 else:
+                    if isinstance(v, VOpt) and elem.kind == 'ref' and ty_of(v.val) == elem:
+                        # an Optional object appended to a list of objects: the declared element type says the
+                        # list never holds None (every consumer dereferences its elements) -- obligation
+                        ex.oblige(p, z3.Not(v.isnone), f'{ex.func.qual.split(".", 1)[1]}/append-not-None@{ex.rel(node.lineno)}',
+                                  ex.contract.props if ex.contract else [], 'assert', node.lineno)
+                        p.add(z3.Not(v.isnone))
+                        v = v.val
                     if ty_of(v) != elem:
                         j = ex.join_ty(elem, ty_of(v)) if not (elem.kind == 'rec' and elem.name in UNIONS) else elem
                         if j != elem:
@@ -941,7 +962,18 @@ class Builtins:
     def list_contains(self, ex, a, b, p, node):
         if b.elem is not None and b.elem.kind in ('int', 'bytes', 'bool', 'str'):
             return ex.lift(p, ops.contains(b, a))
+        if b.elem is not None and b.elem.kind == 'ref' and b.elem.name not in self.classes_with_eq(ex):
+            # objects of a class without __eq__ compare by identity
+            if a is VNone:
+                return [Res(p, VBool(z3.BoolVal(False)))]
+            if isinstance(a, VOpt) and isinstance(a.val, VRef):
+                return [Res(p, VBool(z3.And(z3.Not(a.isnone), z3.Contains(b.z, z3.Unit(a.val.z)))))]
+            if isinstance(a, VRef):
+                return [Res(p, VBool(z3.Contains(b.z, z3.Unit(a.z))))]
         raise Unsupported(f'`in` on list of {b.elem} at {ex.where(node)}')
+
+    def classes_with_eq(self, ex):
+        return {q for q in HEAPCLASSES if ex.repo.find_method(q, '__eq__')}
 
     def equals(self, ex, a, b, p, node):
         """python == in executable code: structural for data; records use the class's __eq__"""
